@@ -583,7 +583,7 @@ func main() {
 	runner.Main(&runner.Harness{
 		ID:    "C09",
 		Level: "model_checking",
-		Rule:  "arrival scripts over {datagram from client A, from client B, wait-for-quiescence, 31 s idle gap} up to length 4 (5 thorough) plus bursts beyond the channel capacities and socket failure, x handler behaviours {echo until end (roomy buffer), read k datagrams with a buffer that fits a datagram exactly then return, read with a 1-byte buffer (two reads per datagram), return without reading}; for each, every interleaving of the real servePacket loop, its reader goroutine, the handler goroutines and the timers under delay bounding (every scheduling choice other than 'continue, else lowest thread id' costs one deviation), select alternatives, early timers and pool misses within a joint deviation budget (3 for histories of <=2 datagrams and selected longer ones, 2 otherwise; +1 in thorough); states = distinct observation digests",
+		Rule:  "arrival scripts over {datagram from client A, from client B, wait-for-quiescence, 31 s idle gap} up to length 4 (5 thorough) plus bursts beyond the channel capacities and socket failure, x handler behaviours {echo until end (roomy buffer), read k datagrams with a buffer that fits a datagram exactly then return, read with a 1-byte buffer (two reads per datagram), return without reading}; for each, every interleaving of the real servePacket loop, its reader goroutine, the handler goroutines and the timers under delay bounding (every scheduling choice other than 'continue, else lowest thread id' costs one deviation), select alternatives, early timers and pool misses within a joint deviation budget (3 for histories of <=2 datagrams and selected longer ones, 2 otherwise; +1 in thorough); states = distinct observation digests; scripts with a step that waits for the handlers to return and close (not for the loop) before the next datagram; a second part built with the loop's three channel capacities substituted by 1 (bursts that park the loop while another client's handler finishes), full deviation budget",
 		Assumptions: []string{
 			"the code under test is /repo's working tree with go/chan/select/sync/atomic/time mechanically redirected to the scheduler (tools/gomcrw)",
 			"sequential consistency; interleavings bounded by preemption count, executions run to completion",
